@@ -46,6 +46,14 @@ class SymArr(np.ndarray):
     def __setitem__(self, idx, val):
         super().__setitem__(_conc_index(idx), val)
 
+    @property
+    def real(self):
+        return _map(lambda v: v.real if isinstance(v, (SComplex, SNum, Polar, complex)) else v, np.asarray(self))
+
+    @property
+    def imag(self):
+        return _map(lambda v: v.imag if isinstance(v, (SComplex, SNum, Polar, complex)) else 0.0, np.asarray(self))
+
     def astype(self, dtype, *a, **k):
         if dtype is sx.sint or dtype is int:
             return _map(sx.sint, self).view(IntObjArr) if self.shape else sx.sint(self[()])
@@ -508,7 +516,7 @@ def exact_fftn(a, axes=(-2, -1), inverse=False, **kw):
     a = _oarr(a)
     for ax in axes:
         a = _dft_axis(a, ax, inverse)
-    return a
+    return np.ascontiguousarray(a).view(SymArr) if isinstance(a, np.ndarray) and a.dtype == object else a
 
 
 class _ExactFFT:
